@@ -7,3 +7,4 @@ INVARIANT DepsIntactStrict
 INVARIANT SameShapeStrict
 INVARIANT RenamingFunctionStrict
 INVARIANT AsAskedStrict
+INVARIANT InputsUnchangedStrict
